@@ -82,9 +82,12 @@ func (u *UseCase) UpdateTx(ctx context.Context, oldTxId, newTxId string, filter 
 	u.allStore.Lock()
 	defer u.allStore.Unlock()
 
+	// All versions of one commit carry the same sequence number: a snapshot
+	// that begins while the commit runs is either before all of them or after.
+	seq := sequence.Next()
 	err = u.fileRepo.RunTransaction(ctx, func(ctx context.Context) error {
 		for i := range files {
-			files[i].Seq = sequence.Next()
+			files[i].Seq = seq
 			err = u.fileRepo.Set(ctx, files[i])
 			if err != nil {
 				return fmt.Errorf("store to tx: %w", err)
